@@ -262,6 +262,9 @@ func walkPair(a, b reflect.Value, path string, set map[string]bool, depth int) {
 	}
 	if path == "" {
 		path = a.Type().Name()
+		if path == "" {
+			path = a.Type().String()
+		}
 	}
 	switch a.Kind() {
 	case reflect.Ptr:
